@@ -1,7 +1,7 @@
 (* Dispatch.v -- request decoder / response encoder for the extracted model.
    One request = one S-expression (op arg ...); one response = one S-expression. *)
 From Coq Require Import String.
-From Torf Require Import Base Sexp Bencode PyVal Geometry Stream History Convert Validate Export MonList.
+From Torf Require Import Base Sexp Bencode PyVal Geometry Stream History Convert Validate Export MonList Filesize.
 Open Scope Z_scope.
 
 Definition getFile (s : sexp) : option file := getPair getZ getZ s.
@@ -366,6 +366,30 @@ Definition handle_monlist (op : list N) (args : list sexp) : option sexp :=
     | _ => None end
   else None.
 
+(* ---- verify_filesize (C20) ---- *)
+Definition getFstate (s : sexp) : option fstate :=
+  match s with
+  | A a => if atom_is "missing" a then Some FMissing else option_map FSize (Z_of_dec a)
+  | _ => None end.
+
+Definition ferr_sexp (e : ferr) : sexp :=
+  match e with FENoEnt => Sy "enoent" | FEWrongSize => Sy "size" | FEIsDir => Sy "isdir" end.
+
+Definition handle_filesize (op : list N) (args : list sexp) : option sexp :=
+  if atom_is "filesize.verify" op then
+    match args with
+    | [cb; sad; files; disk] =>
+        match (match cb with A a => if atom_is "none" a then Some None else option_map Some (Z_of_dec a) | _ => None end),
+              getBool sad, getZs files, getList getFstate disk with
+        | Some cb, Some sad, Some files, Some disk =>
+            let '(r, calls) := verify_filesize cb sad files disk in
+            Some (L [match r with FRet b => L [Sy "ret"; BA b] | FRaise e => L [Sy "raise"; ferr_sexp e] end;
+                     L (List.map (fun c => let '(i, d, e) := c in
+                                   L [ZA i; ZA d; match e with Some e => ferr_sexp e | None => Sy "none" end]) calls)])
+        | _, _, _, _ => None end
+    | _ => None end
+  else None.
+
 Definition handle (req : sexp) : sexp :=
   match req with
   | L (A op :: args) =>
@@ -380,7 +404,11 @@ Definition handle (req : sexp) : sexp :=
               | None =>
                   match handle_monlist op args with
                   | Some r => r
-                  | None => bad_request
+                  | None =>
+                      match handle_filesize op args with
+                      | Some r => r
+                      | None => bad_request
+                      end
                   end
               end
           end
